@@ -1,7 +1,12 @@
 //@@ unit props=C03,C06,C10,C19
 // Unit xlsbrec: XLSB record framing (src/xlsb/mod.rs RecordIter), wide strings, cell records (src/xlsb/cells_reader.rs).
 #![allow(unused_imports, dead_code, unused_variables, unused_mut, unused_assignments)]
+#![feature(allocator_api)]
 use vstd::prelude::*;
+use vstd::slice::SliceIndexSpec;
+use std::ops::{Index, IndexMut};
+use std::slice::SliceIndex;
+use std::borrow::Cow;
 
 verus! {
 
@@ -19,6 +24,18 @@ pub mod crate_ { }
 #[verifier::external_type_specification] #[verifier::external_body] pub struct ExIoError(std::io::Error);
 
 //@@ item src/xlsb/mod.rs enum XlsbError
+// what `from_err!(std::io::Error, XlsbError, Io)` (macro of src/utils.rs) expands to, `e.into()` being the identity here
+impl From<std::io::Error> for XlsbError { fn from(e: std::io::Error) -> (r: XlsbError) { XlsbError::Io(e) } }
+impl vstd::std_specs::convert::FromSpecImpl<std::io::Error> for XlsbError {
+    open spec fn obeys_from_spec() -> bool { true }
+    open spec fn from_spec(e: std::io::Error) -> Self { XlsbError::Io(e) }
+}
+
+// TRUSTED: A-std -- `Vec::index_mut(i)` is `IndexMut::index_mut(&mut **self, i)`: the slice operation applied to the vector's
+// contents (vstd specifies the slice operation and the bounds precondition `index_req`, but gives Vec::index_mut no postcondition).
+pub assume_specification<T, I: SliceIndex<[T]>, A: std::alloc::Allocator>[ <Vec<T, A> as IndexMut<I>>::index_mut ](v: &mut Vec<T, A>, index: I) -> (s: &mut <Vec<T, A> as Index<I>>::Output)
+    ensures exists|s0: &[T], s1: &[T]| s0@ == old(v)@ && s1@ == final(v)@ && #[trigger] index.index_mut_postcondition(s0, s1, s, final(s)),
+    ;
 
 // ---- A-io: ghost byte-stream model of the reader behind RecordIter
 // TRUSTED: A-io -- `ZipFile` / `BufReader` are stand-ins for zip::read::ZipFile and std::io::BufReader; the only
@@ -92,6 +109,13 @@ proof fn witness_varint()
     assert(varint_len(seq![0xFFu8, 0xFFu8, 0xFFu8, 0xFFu8, 0xFFu8]) == 0x0FFF_FFFF && vhdr(seq![0xFFu8, 0xFFu8, 0xFFu8, 0xFFu8, 0xFFu8], 4) == 4) by (compute);
 }
 
+proof fn lemma_vhdr_from_lb(s: Seq<u8>, i: nat, max: nat)
+    ensures vhdr_from(s, i, max) >= i + 1, i + 1 <= max ==> vhdr_from(s, i, max) <= max,
+    decreases max - i,
+{
+    if !(i + 1 >= max || i >= s.len() || !cont(s[i as int])) { lemma_vhdr_from_lb(s, i + 1, max); }
+}
+
 /// the exec bit operations of the code, in arithmetic terms
 proof fn lemma_bits(x: u8)
     ensures
@@ -113,6 +137,72 @@ proof fn lemma_bits(x: u8)
     assert((((x & 0x7F) as usize) << 21) == 2097152 * ((x % 128) as usize)) by (bit_vector);
 }
 
+// ---- records on the byte stream ([MS-XLSB] 2.1.4): type field, size field, `size` payload bytes
+pub open spec fn rec_tl(s: Seq<u8>) -> nat { vhdr(s, 2) }
+pub open spec fn rec_typ(s: Seq<u8>) -> int { varint_type(s) }
+pub open spec fn rec_sl(s: Seq<u8>) -> nat { vhdr(s.skip(rec_tl(s) as int), 4) }
+pub open spec fn rec_len(s: Seq<u8>) -> int { varint_len(s.skip(rec_tl(s) as int)) }
+pub open spec fn rec_total(s: Seq<u8>) -> int { rec_tl(s) + rec_sl(s) + rec_len(s) }
+/// a complete record is present at the head of s
+pub open spec fn rec_ok(s: Seq<u8>) -> bool {
+    vcomplete(s, 2) && vcomplete(s.skip(rec_tl(s) as int), 4) && s.len() >= rec_total(s)
+}
+pub open spec fn rec_payload(s: Seq<u8>) -> Seq<u8> { s.subrange((rec_tl(s) + rec_sl(s)) as int, rec_total(s)) }
+pub open spec fn rec_rest(s: Seq<u8>) -> Seq<u8> { s.skip(rec_total(s)) }
+
+proof fn lemma_vsum_nonneg(s: Seq<u8>, n: nat)
+    ensures vsum(s, n) >= 0,
+    decreases n,
+{
+    if n > 0 {
+        lemma_vsum_nonneg(s, (n - 1) as nat);
+        lemma_pow128_pos((n - 1) as nat);
+        assert(lo7(s[n - 1]) * pow128((n - 1) as nat) >= 0) by (nonlinear_arith) requires lo7(s[n - 1]) >= 0, pow128((n - 1) as nat) > 0;
+    }
+}
+proof fn lemma_pow128_pos(i: nat) ensures pow128(i) > 0 decreases i { if i > 0 { lemma_pow128_pos((i - 1) as nat); } }
+/// every record occupies at least 2 bytes
+proof fn lemma_rec_total(s: Seq<u8>)
+    ensures rec_total(s) >= 2,
+{
+    lemma_vhdr_from_lb(s, 0, 2);
+    lemma_vhdr_from_lb(s.skip(rec_tl(s) as int), 0, 4);
+    lemma_vsum_nonneg(s.skip(rec_tl(s) as int), rec_sl(s));
+}
+
+/// the stream after n whole records (None if it ends, or a record is truncated, before that)
+pub open spec fn skip_n(s: Seq<u8>, n: nat) -> Option<Seq<u8>> decreases n {
+    if n == 0 { Some(s) } else if rec_ok(s) { skip_n(rec_rest(s), (n - 1) as nat) } else { None }
+}
+proof fn lemma_skip_n_step(s: Seq<u8>, n: nat)
+    requires skip_n(s, n) is Some, rec_ok(skip_n(s, n)->Some_0),
+    ensures skip_n(s, n + 1) == Some(rec_rest(skip_n(s, n)->Some_0)),
+    decreases n,
+{
+    if n == 0 {
+        assert(skip_n(rec_rest(s), 0) == Some(rec_rest(s)));
+    } else {
+        lemma_skip_n_step(rec_rest(s), (n - 1) as nat);
+    }
+}
+/// what `read_type` followed by `fill_buffer` consume is exactly one record
+proof fn lemma_rec_read(s: Seq<u8>)
+    requires
+        vcomplete(s, 2), vcomplete(s.skip(vhdr(s, 2) as int), 4),
+        s.skip(vhdr(s, 2) as int).len() >= vhdr(s.skip(vhdr(s, 2) as int), 4) + varint_len(s.skip(vhdr(s, 2) as int)),
+    ensures
+        rec_ok(s), rec_total(s) >= 2, rec_rest(s).len() < s.len(), rec_len(s) >= 0,
+        s.skip(rec_tl(s) as int).skip(rec_sl(s) + rec_len(s)) == rec_rest(s),
+        s.skip(rec_tl(s) as int).subrange(rec_sl(s) as int, rec_sl(s) + rec_len(s)) == rec_payload(s),
+{
+    lemma_rec_total(s);
+    lemma_vsum_nonneg(s.skip(rec_tl(s) as int), rec_sl(s));
+    assert(s.skip(rec_tl(s) as int).skip(rec_sl(s) + rec_len(s)) =~= rec_rest(s));
+    assert(s.skip(rec_tl(s) as int).subrange(rec_sl(s) as int, rec_sl(s) + rec_len(s)) =~= rec_payload(s));
+}
+/// t is a record boundary of the stream s: reached from s by consuming k whole records
+pub open spec fn boundary(s: Seq<u8>, k: nat, t: Seq<u8>) -> bool { skip_n(s, k) == Some(t) }
+
 //@@ item src/xlsb/mod.rs struct RecordIter
 
 impl<'a> RecordIter<'a> {
@@ -120,7 +210,7 @@ impl<'a> RecordIter<'a> {
 }
 
 //@@ impl src/xlsb/mod.rs RecordIter
-//@@ fn src/xlsb/mod.rs RecordIter::read_u8 props=C03 ret=r
+//@@ fn src/xlsb/mod.rs RecordIter::read_u8 props=C03 entry ret=r
 //@@ sig
     ensures
         //# C03.read_u8_ok
@@ -128,7 +218,7 @@ impl<'a> RecordIter<'a> {
         //# C03.read_u8_err
         r is Err ==> old(self).rem().len() == 0,
 //@@ end
-//@@ fn src/xlsb/mod.rs RecordIter::read_type props=C03 ret=r
+//@@ fn src/xlsb/mod.rs RecordIter::read_type props=C03 entry ret=r
 //@@ sig
     ensures
         //# C03.varint_type
@@ -145,7 +235,7 @@ impl<'a> RecordIter<'a> {
             if s0.len() > 1 { lemma_bits(s0[1]); assert(s0.skip(1)[0] == s0[1]); assert(s0.skip(1).skip(1) =~= s0.skip(2)); }
         }
 //@@ end
-//@@ fn src/xlsb/mod.rs RecordIter::fill_buffer props=C03 ret=r
+//@@ fn src/xlsb/mod.rs RecordIter::fill_buffer props=C03 entry ret=r
 //@@ sig
     ensures
         //# C03.fill_len
@@ -169,6 +259,7 @@ impl<'a> RecordIter<'a> {
         proof { lemma_pow128(); reveal_with_fuel(vsum, 2); if s0.len() > 0 { lemma_bits(s0[0]); } }
 //@@ loop 0 it
             invariant
+                s0 == old(self).rem(),
                 1 <= n <= 4, n <= s0.len(),
                 !stopped ==> n == i,
                 self.rem() == s0.skip(n as int),
@@ -183,6 +274,10 @@ impl<'a> RecordIter<'a> {
             proof { lemma_bits(b); }
 //@@ before /break;/
                 proof { stopped = true; }
+//@@ before /b = self\.read_u8\(\)\?;/#1of2
+            proof { assert(n == i); assert(vhdr_from(s0, (n - 1) as nat, 4) == vhdr_from(s0, n, 4)); lemma_vhdr_from_lb(s0, n, 4);
+                assert(self.rem().len() == s0.len() - n);
+                assert(self.rem().len() == 0 ==> !vcomplete(s0, 4)); }
 //@@ before /len \+= /
             proof {
                 lemma_bits(b); lemma_pow128();
@@ -202,8 +297,139 @@ impl<'a> RecordIter<'a> {
             lemma_pow128();
             assert(n == vhdr(s0, 4));
         }
+        let ghost buf0 = buf@;
+//@@ before /\*buf = vec!/
+            // allocation site driven by file data: bounded by the 4 x 7-bit size field (K0 = 2^28 - 1 bytes), whatever the input length
+            //# C06.fill_alloc_bound
+            assert(len <= 0x0FFF_FFFF);
+//@@ before /Ok\(len\)/
+        proof {
+            assert(buf@.len() >= len);
+            assert(self.rem() == s0.skip(n as int).skip(len as int));
+            assert(s0.skip(n as int).skip(len as int) =~= s0.skip(n + len));
+            assert(buf@.subrange(0, len as int) =~= s0.skip(n as int).subrange(0, len as int));
+            assert(s0.skip(n as int).subrange(0, len as int) =~= s0.subrange(n as int, n + len));
+        }
+//@@ end
+//@@ fn src/xlsb/mod.rs RecordIter::next_skip_blocks props=C03 entry ret=r
+//@@ sig
+    ensures
+        // "record kinds the reader does not interpret never shift or drop neighbouring cells": the reader only ever stops at
+        // record boundaries -- the returned record is a whole record of the requested type, k whole records after the start
+        //# C03.skip_whole_records
+        r is Ok ==> exists|k: nat, t: Seq<u8>| #[trigger] boundary(old(self).rem(), k, t) && rec_ok(t) && rec_typ(t) == record_type
+            && r->Ok_0 as int == rec_len(t) && final(buf)@.len() >= r->Ok_0
+            && final(buf)@.subrange(0, r->Ok_0 as int) == rec_payload(t) && final(self).rem() == rec_rest(t),
+        //# C03.skip_err
+        r is Err ==> exists|k: nat, t: Seq<u8>| #[trigger] boundary(old(self).rem(), k, t) && !rec_ok(t),
+//@@ body
+        let ghost s0 = self.rem();
+        let ghost mut k: nat = 0;
+        let ghost mut cur = self.rem();
+        let ghost mut prev = self.rem();
+//@@ before /let typ = /
+            let ghost h = self.rem().len();
+//@@ before /if typ == record_type/
+            proof {
+                lemma_rec_read(cur);
+                lemma_skip_n_step(s0, k);
+                prev = cur; cur = rec_rest(prev); k = k + 1;
+            }
+//@@ before /return Ok\(len\)/
+                proof { assert(boundary(s0, (k - 1) as nat, prev)); }
+//@@ after /let _ = self\.fill_buffer\(buf\)\?;/#0of2
+                    proof {
+                        lemma_rec_read(cur);
+                        lemma_skip_n_step(s0, k);
+                        prev = cur; cur = rec_rest(prev); k = k + 1;
+                    }
+//@@ after /let _ = self\.fill_buffer\(buf\)\?;/#1of2
+                proof {
+                    lemma_rec_read(cur);
+                    lemma_skip_n_step(s0, k);
+                    prev = cur; cur = rec_rest(prev); k = k + 1;
+                }
+//@@ loop 0
+            invariant
+                s0 == old(self).rem(),
+                cur == self.rem(),
+                boundary(s0, k, cur),
+            decreases self.rem().len(),
+//@@ loop 1
+                    invariant
+                        s0 == old(self).rem(),
+                        cur == self.rem(),
+                        boundary(s0, k, cur),
+                        cur.len() < h,
+                    decreases self.rem().len(),
 //@@ end
 //@@ endimpl
+
+// ---- A-enc: UTF-16LE decoding (encoding_rs::UTF_16LE.decode) and Cow<str>
+// TRUSTED: A-enc -- `dec16` stands for encoding_rs' UTF-16LE decoder (without BOM handling surprises: `decode` performs BOM
+// sniffing, see report); nothing is assumed about it beyond being a function of the bytes.
+pub uninterp spec fn dec16(s: Seq<u8>) -> Seq<char>;
+/// the text of a Cow<str>
+pub uninterp spec fn cow_chars(c: Cow<'_, str>) -> Seq<char>;
+pub struct Encoding;
+pub struct Utf16LeStandIn;
+pub const UTF_16LE: Utf16LeStandIn = Utf16LeStandIn;
+impl Utf16LeStandIn {
+    // TRUSTED: A-enc
+    #[verifier::external_body]
+    pub fn decode<'a>(&self, bytes: &'a [u8]) -> (r: (Cow<'a, str>, Encoding, bool))
+        ensures cow_chars(r.0) == dec16(bytes@),
+    { unimplemented!() }
+}
+
+//@@ include common/bytes.rs
+
+//@@ fn src/xlsb/mod.rs wide_str props=C03,C19 entry ret=r
+//@@ sig
+    ensures
+        //# C03,C19.wide_str_err_iff
+        buf@.len() >= 4 ==> (r is Err <==> buf@.len() < 4 + 2 * le32(buf@)),
+        //# C03,C19.wide_str_err_shape
+        buf@.len() >= 4 && r is Err ==> r->Err_0 is WideStr && r->Err_0->ws_len == 4 + 2 * le32(buf@) && r->Err_0->buf_len == buf@.len()
+            && *final(str_len) == *old(str_len),
+        //# C03,C19.wide_str_len
+        buf@.len() >= 4 && r is Ok ==> *final(str_len) == 4 + 2 * le32(buf@),
+        //# C03,C19.wide_str_text
+        buf@.len() >= 4 && r is Ok ==> cow_chars(r->Ok_0) == dec16(buf@.subrange(4, 4 + 2 * le32(buf@))),
+//@@ end
+
+// ---- BrtWsDim ([MS-XLSB] 2.4.820): rwFirst u32 @0, rwLast u32 @4, colFirst u32 @8, colLast u32 @12
+//@@ item src/lib.rs struct Dimensions keep_attrs
+//@@ fn src/xlsb/cells_reader.rs parse_dimensions props=C03 entry ret=r
+//@@ sig
+    ensures
+        //# C03.dim_start
+        buf@.len() >= 16 ==> r.start.0 as int == le32(buf@.subrange(0, 4)) && r.start.1 as int == le32(buf@.subrange(8, 12)),
+        //# C03.dim_end
+        buf@.len() >= 16 ==> r.end.0 as int == le32(buf@.subrange(4, 8)) && r.end.1 as int == le32(buf@.subrange(12, 16)),
+//@@ end
+
+// ---- Cell ([MS-XLSB] 2.5.9): column u32 @0, iStyleRef 24 bits @4, flags @7
+//@@ item src/formats.rs enum CellFormat keep_attrs
+// TRUSTED: A-bytes -- u32::from_le_bytes: little-endian value of the 4 bytes (std documentation). The std signature
+// `[u8; size_of::<Self>()]` contains an anonymous constant that `assume_specification` cannot name, so the call is routed through
+// this wrapper by a declared rewrite; the wrapper's contract is discharged by the Kani harness xlsb::u32_from_le_bytes_spec.
+#[verifier::external_body]
+fn verif_u32_from_le_bytes(b: [u8; 4]) -> (r: u32)
+    ensures r as int == b[0] as int + 256 * (b[1] as int) + 65536 * (b[2] as int) + 16777216 * (b[3] as int),
+{ u32::from_le_bytes(b) }
+pub open spec fn style_ref(buf: Seq<u8>) -> int { buf[4] as int + 256 * (buf[5] as int) + 65536 * (buf[6] as int) }
+pub open spec fn cell_format_spec(formats: Seq<CellFormat>, buf: Seq<u8>) -> Option<CellFormat> {
+    if style_ref(buf) < formats.len() { Some(formats[style_ref(buf)]) } else { None }
+}
+//@@ fn src/xlsb/mod.rs cell_format props=C03,C10 entry ret=r
+//@@ sig
+    ensures
+        //# C03,C10.cell_format_lookup
+        buf@.len() >= 7 ==> (match r { Some(f) => Some(*f), None => None }) == cell_format_spec(formats@, buf@),
+//@@ replace /u32::from_le_bytes/ std signature not nameable in assume_specification; wrapper with the documented contract
+verif_u32_from_le_bytes
+//@@ end
 
 } // verus!
 fn main() {}
